@@ -1,8 +1,128 @@
-"""sccfind -- mechanism keys for C37 / C38 violations (family prefix + diagnosis of known mechanisms)."""
+"""
+sccfind -- mechanism keys for C37 / C38 violations.
+
+``diagnose`` turns the raw observation (exception root cause, first compiler error, run-time report class) into a
+mechanism key.  Known mechanisms are recognised from what was *observed* (compiler / run-time message, transformed
+text) and get a family-independent key; everything else keeps ``<family>:<raw observation>`` so that a different
+break shows up under a different key.
+"""
 import re
 
 
-def diagnose(pid, spec, case, out, v):
-    raw = v['key']
-    fam = spec['family']
+def _kwargs(spec):
+    kw = {}
+    for _, k in spec['steps']:
+        kw.update(k)
+    return kw
+
+
+def _joined(text):
+    """free-form source with continuation lines joined"""
+    return re.sub(r'&\s*\n\s*&?', ' ', text)
+
+
+def _detail(v):
+    w = v.get('witness') or {}
+    d = w.get('diff') or {}
+    return ' '.join([v.get('msg') or '', d.get('detail') or '', d.get('new_err') or ''])
+
+
+def _transformed(v, out):
+    files = (v.get('witness') or {}).get('transformed') or out.get('files') or {}
+    return {n: _joined(t) for n, t in files.items()}
+
+
+def _call_mixes(texts, positional_pattern):
+    """a CALL that carries keyword actuals and a positional actual matching ``positional_pattern``"""
+    for t in texts.values():
+        for m in re.finditer(r'^\s*CALL\s+\w+\s*\((.*)\)\s*$', t, re.M | re.I):
+            args = m.group(1)
+            first_kw = re.search(r'(?<![=<>/])\b\w+\s*=(?!=)', args)
+            if first_kw and re.search(positional_pattern, args[:first_kw.start()], re.I):
+                return True
+    return False
+
+
+def _missing_kind(texts):
+    """(file, kind) where ``kind=<K>`` is used but parkind1's K is imported nowhere in the file"""
+    for name, t in texts.items():
+        for k in ('jprm', 'jprb', 'jpim'):
+            if re.search(r'kind\s*=\s*%s\b' % k, t, re.I) and not re.search(r'use\s+parkind1[^\n]*\b%s\b' % k, t, re.I):
+                return name, k
+    return None
+
+
+def diagnose(pid, spec, case, out, v):     # pylint: disable=unused-argument,too-many-return-statements,too-many-branches
+    raw, fam = v['key'], spec['family']
+    det = _detail(v)
+    kw = _kwargs(spec)
+    feats = case.features
+    texts = _transformed(v, out)
+
+    # -- documented value directive=None is rejected by PragmaModelTransformation (assert directive in [False, ...])
+    if raw == 'exc:AssertionError@pragma_model.__init__' and 'directive' in kw and kw['directive'] is None:
+        return 'scc:directive-None-rejected-by-pragma-model-assert'
+
+    # -- CONTIGUOUS on explicit-shape stack dummies (FtrPtr / DirectIdx kernels)
+    if raw.startswith('build:') and 'CONTIGUOUS attribute but is not' in det:
+        return 'index-stack:contiguous-attribute-on-explicit-shape-stack-dummy'
+
+    # -- positional actuals appended to calls that carry keyword arguments
+    if raw.startswith('build:') and re.search(r'Type mismatch in argument|Rank mismatch in argument|already associated '
+                                              r'with another actual|More actual than formal', det):
+        if 'hoist' in fam and kw.get('as_kwarguments') is not True and \
+                _call_mixes(texts, r'\bkern_l\d+_\d+_\w+'):
+            return 'hoist:positional-hoisted-actuals-on-call-with-keyword-arguments'
+        if 'rawstack' in fam and _call_mixes(texts, r'\w+_STACK\s*\('):
+            return 'rawstack:positional-stack-actuals-on-call-with-keyword-arguments'
+
+    # -- kind parameter of hoisted / stack-allocated temporaries used in a file that does not import it
+    if raw.startswith('build:') and 'has-no-IMPLICIT-type' in raw:
+        miss = _missing_kind(texts)
+        if miss:
+            if 'imports:module-level' in feats and 'hoist' in fam:
+                return 'hoist:kind-imported-at-module-level-not-imported-where-hoisted'
+            if 'imports:module-level' in feats and 'pool' in fam:
+                return 'pool:kind-imported-at-module-level-not-imported-in-driver'
+            if 'rawstack' in fam and miss[0] == 'driver_mod.F90':
+                return 'rawstack:kind-of-kernel-temporaries-not-imported-in-driver'
+            return f'{fam}:build:kind-parameter-not-imported'
+
+    # -- temporaries declared with a literal kind: analysis does ``k.name in import_map``
+    if raw == 'exc:AttributeError@hoist_variables.transform_subroutine' and "'IntLiteral' object has no attribute" in det:
+        return 'hoist:literal-kind-of-temporary-AttributeError'
+
+    # -- raw stack: caller passes J_<type>_<kind>_STACK_USED of a stack only its callee needs, never declared
+    m = re.search(r"Symbol ‘(j_\w+_stack_used)’ at \(1\) has no IMPLICIT type", det, re.I)
+    if raw.startswith('build:') and 'rawstack' in fam and m:
+        return 'rawstack:stack-used-counter-of-callee-only-kind-undeclared-in-caller'
+
+    # -- driver vector section wraps the assignments of block index / upper bound of an IFS-style block loop
+    if 'driver:ifs-block-loop' in feats and 'driver:horizontal-loop-in-block-loop' in feats:
+        if raw == 'exc:AssertionError@pool_allocator.create_pool_allocator':
+            return 'scc-driver:block-index-assignment-moved-into-vector-loop:pool-allocator-assert'
+        drv = texts.get('driver_mod.F90', '')
+        n = case.names
+        pat = (r'DO\s+%s\s*=[^\n]*\n(?:(?!END\s*DO)[^\n]*\n)*?\s*(%s|%s)\s*=' % (n['hidx'], n['hup'], n['bidx']))
+        if raw.startswith('run:') and re.search(pat, drv, re.I):
+            return 'scc-driver:vector-section-wraps-block-index-and-bound-assignments'
+
+    # -- FtrPtr: pointer target section STACK(incr:incr+size) ends one element past the stack
+    m = re.search(r"Index '(\d+)' of dimension 1 of array '(\w+_stack)' outside of expected range \((\d+):", det)
+    if raw.startswith('run:rtcheck-Index') and 'ftrptr' in fam and m:
+        over = int(m.group(1)) - int(m.group(3))
+        return 'ftrptr:pointer-target-section-one-past-stack-end' if over == 1 else \
+            'ftrptr:pointer-target-section-beyond-stack-end'
+
+    # -- DirectIdx: offset variable JD_<name> dropped when the element index simplifies to a single term
+    if 'directidx' in fam and raw.startswith('run:'):
+        for t in texts.values():
+            t = '\n'.join(ln for ln in t.splitlines() if '::' not in ln)
+            if re.search(r'\b\w+_STACK\((?![^()]*JD_)[^():]*\)', t) and re.search(r'\bJD_\w+\s*=', t):
+                return 'directidx:stack-offset-dropped-from-subscript'
+        m = re.search(r"Index '(\d+)' of dimension 1 of array '(\w+_stack)' (?:outside of expected range|above upper "
+                      r"bound of) \(?(\d+)", det)
+        if m and int(m.group(1)) - int(m.group(3)) == 1:
+            return 'directidx:last-element-one-past-stack-end'
+
     return f'{fam}:{raw}'
